@@ -484,9 +484,46 @@ func runCheck(o *Options) (int, *Evidence) {
 	}
 	sp.Stale = map[string]*FuncSpec{}
 	var stale []string
+	// a contracted function that was only renamed: its contract names no function any more, and
+	// exactly one function of the same package with the same receiver and signature has none
+	for _, k := range keys {
+		if prog.funcs[k] != nil || recorded[k] == "" || o.writeBaseline {
+			continue
+		}
+		var cands []string
+		for k2, fi2 := range prog.funcs {
+			if sp.Funcs[k2] != nil || fi2.obj == nil || fi2.decl.Body == nil || keyPkg(k2) != keyPkg(k) {
+				continue
+			}
+			if _, had := recorded[k2]; had {
+				continue
+			}
+			if namelessSig(fi2.obj) == recorded[k] && recvOf(k2) == recvOf(k) {
+				cands = append(cands, k2)
+			}
+		}
+		if len(cands) == 1 {
+			fs := *sp.Funcs[k]
+			fs.Key = strings.TrimPrefix(cands[0], fs.Pkg+".")
+			sp.Funcs[cands[0]] = &fs
+			delete(sp.Funcs, k)
+			recorded[cands[0]] = recorded[k]
+			if hints, ok := localHints[strings.TrimPrefix(k, modRoot+"/")]; ok {
+				localHints[strings.TrimPrefix(cands[0], modRoot+"/")] = hints
+			}
+			fmt.Printf("NOTE %s was renamed to %s (same receiver and signature, no other candidate): its contract follows\n", k, cands[0])
+		}
+	}
+	keys = keys[:0]
+	for k, f := range sp.Funcs {
+		if !f.External && pk[f.Pkg] {
+			keys = append(keys, k)
+		}
+	}
+	sort.Strings(keys)
 	for _, k := range keys {
 		if fi := prog.funcs[k]; fi != nil && fi.obj != nil {
-			cur := fi.obj.Type().String()
+			cur := namelessSig(fi.obj)
 			if o.writeBaseline {
 				recorded[k] = cur
 			} else if was, ok := recorded[k]; ok && was != cur {
@@ -880,6 +917,20 @@ func runCheck(o *Options) (int, *Evidence) {
 				}
 			}
 		}
+		brokenOnly := len(ob.Queries) > 0
+		for _, j := range ob.Queries {
+			if j.res.Status != "unsat" && !j.q.BrokenPath && j.q.Broken == "" {
+				brokenOnly = false
+			}
+		}
+		if brokenOnly {
+			// the clause itself cannot be evaluated any more (it names something that is gone), or
+			// every failing path runs through a loop with such an invariant: a contract out of date
+			// proves nothing and refutes nothing (a failing input of the real code can still decide)
+			undec = append(undec, "UNDISCHARGED "+n+" (CONTRACT-MISMATCH: a clause names something that is gone, or the path runs behind such a loop invariant; "+ob.Status+")")
+			undecObs = append(undecObs, ob)
+			continue
+		}
 		if !onBase && (ob.Status == "failed-unknown" || weakSat) {
 			// unknown: nothing is known. sat on an obligation the unchanged tree did not have, on
 			// a path through the head of a loop without invariants: the model is a state after an
@@ -1202,4 +1253,48 @@ func runBounded(o *Options, ev *Evidence) int {
 		}
 	}
 	return code
+}
+
+// namelessSig: receiver, parameter and result types of a function without the parameter names
+// (a renamed parameter does not make a contract stale: names in contracts are resolved by
+// declaration ordinal as well).
+func namelessSig(fn *types.Func) string {
+	sig, ok := fn.Type().(*types.Signature)
+	if !ok {
+		return fn.Type().String()
+	}
+	var b strings.Builder
+	tl := func(t *types.Tuple) {
+		b.WriteString("(")
+		for i := 0; i < t.Len(); i++ {
+			if i > 0 {
+				b.WriteString(", ")
+			}
+			b.WriteString(t.At(i).Type().String())
+		}
+		b.WriteString(")")
+	}
+	if tp := sig.TypeParams(); tp != nil {
+		fmt.Fprintf(&b, "[%d]", tp.Len())
+	}
+	tl(sig.Params())
+	if sig.Variadic() {
+		b.WriteString("...")
+	}
+	tl(sig.Results())
+	return b.String()
+}
+
+// recvOf: the receiver part of a function key ("pkg.(*T).m" -> "(*T)", "pkg.f" -> "").
+func recvOf(key string) string {
+	k := key[strings.LastIndex(key, "/")+1:]
+	if i := strings.Index(k, ".("); i >= 0 {
+		if j := strings.Index(k[i:], ")."); j >= 0 {
+			return k[i+1 : i+j+1]
+		}
+	}
+	if parts := strings.Split(k, "."); len(parts) == 3 {
+		return parts[1]
+	}
+	return ""
 }
